@@ -48,6 +48,7 @@ var (
 	ErrGasPayer                  = errors.New("the gasPayer error")
 	ErrAddressType               = errors.New("address type wrong")
 	ErrTempAddress               = errors.New("the issuer part in temp address is incorrect")
+	ErrRedundantSigs             = errors.New("the transaction contains signatures which do not belong to the account or are repeated")
 )
 
 type TxProcessor struct {
@@ -211,6 +212,11 @@ func (p *TxProcessor) checkSignersWeight(sender common.Address, tx *types.Transa
 	accSigners := p.am.GetAccount(sender).GetSigners()
 	length := len(accSigners)
 	if length == 0 { // 非多签账户
+		// the tx hash covers every signature. A signature which takes no part in the decision would be a free way to change the hash
+		if len(signers) != 1 {
+			log.Errorf("An account without signers needs exactly one signature. Got %d", len(signers))
+			return ErrRedundantSigs
+		}
 		signer := signers[0]
 		// 判断签名者是否为from
 		if signer != sender {
@@ -221,10 +227,20 @@ func (p *TxProcessor) checkSignersWeight(sender common.Address, tx *types.Transa
 		signersMap := accSigners.ToSignerMap()
 		// 计算签名者权重总和
 		var totalWeight int64 = 0
+		counted := make(map[common.Address]struct{}, len(signers))
 		for _, addr := range signers {
-			if w, ok := signersMap[addr]; ok {
-				totalWeight = totalWeight + int64(w)
+			w, ok := signersMap[addr]
+			if !ok {
+				log.Errorf("The signer %s is not a signer of account %s", addr.String(), sender.String())
+				return ErrRedundantSigs
 			}
+			// every signer counts once
+			if _, ok := counted[addr]; ok {
+				log.Errorf("The signer %s signed twice", addr.String())
+				return ErrRedundantSigs
+			}
+			counted[addr] = struct{}{}
+			totalWeight = totalWeight + int64(w)
 		}
 		// 比较签名权重总和大小
 		if totalWeight < SignerWeightThreshold {
